@@ -168,3 +168,50 @@ def run(chk, P, E, rule="R-BIND"):
         ok = any(f2[0] == want and "IS_THISSYSTEM" in f2[1] and "topology->state" in f2[1] for f2 in st)
         chk.inst(rule, sb, "select:" + c["fn"], ok, "%s must be selected on the %s edge of the IS_THISSYSTEM test of topology->state" % (c["fn"], "false" if want == "F" else "true"), loc=sb.loc(c))
     return n_hook
+
+
+def dispatch_exclusive(chk, P, unit="bind.c", rule="R-BIND"):
+    """an explicit target is honoured: in every dispatching function that can call both a *thisproc* and a *thisthread* hook, with the
+    flags word seeded to the function's own ..._PROCESS constant no thisthread hook is reachable, and with ..._THREAD no thisproc hook
+    (seeded constant propagation; how the dispatch is written -- else-if chain, early returns, switch -- does not matter).  Without
+    either bit the documented fallback order is not judged here."""
+    import peval
+    n = 0
+    for f in P.unit(unit).funcs(only_main=True):
+        if f.entry is None:
+            continue
+        hooks = []
+        for c in f.calls():
+            if c.get("fn") is not None:
+                continue
+            ce = strip(c["c"][0])
+            if ce is not None and ce["k"] == "Member" and ("thisproc" in ce["f"] or "thisthread" in ce["f"]):
+                hooks.append((c, "proc" if "thisproc" in ce["f"] else "thread", ce["f"]))
+        if not (any(k == "proc" for _, k, _ in hooks) and any(k == "thread" for _, k, _ in hooks)):
+            continue
+        fl = [p["n"] for p in f.params if p["n"] == "flags"]
+        consts = {}
+        for r in f.walk():
+            if r["k"] == "Ref" and r.get("dk") == "enum" and r.get("n", "").endswith(("_PROCESS", "_THREAD")) and r.get("v") is not None:
+                consts[r["n"]] = r["v"]
+        if not fl or len(consts) < 2:
+            continue
+        for cname, cv in sorted(consts.items()):
+            want = "proc" if cname.endswith("_PROCESS") else "thread"
+            seen = []
+            ids = {c["id"]: (k, nm) for c, k, nm in hooks}
+            def obs(nd, env, seen=seen, ids=ids):
+                if nd["id"] in ids:
+                    seen.append(ids[nd["id"]])
+            try:
+                peval.PathEval(P, f, {fl[0]: cv}, is_effect=lambda *z: False, through_effects=True, observe=obs, track={fl[0]}, maxstates=50000).run()
+            except AnalysisBroken as ex:
+                chk.broke("%s: %s not evaluable (%s)" % (rule, f.name, ex))
+                continue
+            n += 1
+            wrong = sorted(set(nm for k, nm in seen if k != want))
+            right = sorted(set(nm for k, nm in seen if k == want))
+            chk.inst(rule, f, "explicit-target:%s" % cname, bool(right) and not wrong,
+                     "with flags == %s only %s hooks are reachable (%s)%s" % (cname, "process" if want == "proc" else "thread", ", ".join(right) or "none",
+                                                                            "" if not wrong else " -- but %s is reachable too: an explicit request falls through to the other target" % ", ".join(wrong)))
+    return n
